@@ -357,6 +357,9 @@ func loadedField(v ssa.Value) (*types.Var, ssa.Value) {
 func returnsOf(fn *ssa.Function) []*ssa.Return {
 	var out []*ssa.Return
 	for _, b := range fn.Blocks {
+		if b == fn.Recover || (b.Index != 0 && len(b.Preds) == 0) {
+			continue // the synthetic recover block is not a normal exit
+		}
 		if r, ok := lastInstr(b).(*ssa.Return); ok {
 			out = append(out, r)
 		}
